@@ -30,6 +30,15 @@ CHECKS["C13"] = ("Coq theorems relative to syn's grammars as oracles: a bare exp
          "are element-wise in order, literal targets keep the user's token, the two expression helpers differ only on a string literal. Tied to the code by running every syntax-valued target "
          "of from_meta.rs / util on a grammar of paths, identifiers, expressions, types and literals (bare, quoted, grouped).",
          "Coq proof (structural induction over expressions / groups, oracle-relative) + per-run differential correspondence")
+CHECKS["C14"] = ("Coq theorems for any key kind and ANY value implementer: the single-pass map builder equals a per-item comprehension (fold invariant), it succeeds iff every item is named, "
+         "every key converts, keys are pairwise distinct and every value converts; then one entry per item in order with NoDup keys; otherwise leaf count = literals + repeats + bad keys + value leaves. "
+         "Tied to the map! macro by random lists over all five instantiations, with the element type run on every item so the specification is evaluated on the implementation's own outputs; hash/ordered twins compared.",
+         "Coq proof (fold-left invariant, refinement to a comprehension) + per-run differential correspondence")
+CHECKS["C15"] = ("Coq theorems: (A) over a pre-lexed stream, parse_meta_list accepts exactly comma-separated item sequences with optional trailing comma (soundness + completeness of the parse_terminated loop), "
+         "items in stream order, classification facts; (B) for ANY implementer (any subset of overridden hooks): the routing table by form, groups exactly transparent at any depth, default hooks reject with "
+         "the documented kind, returned errors are spanned and already-spanned errors unchanged. Tied to the code by grammar-generated token streams + single-token mutations (table computed with syn alone) "
+         "and by 128 probe implementers x 3 modes.",
+         "Coq proof (induction over fuel / derivations; quantified over all implementers) + per-run differential correspondence")
 PARTIAL = {}
 def chk(pid):
     text, tech = CHECKS[pid]
